@@ -360,6 +360,7 @@ HINTS = st.fixed_dictionaries({
     "nan": st.sampled_from(["pos", "pos", "neg", "payload", "mixed"]),
     "readonly": st.sampled_from([False, False, False, True]),
     "text": st.sampled_from(["str", "str", "str", "subclass", "numpy"]),
+    "seq": st.sampled_from(["list", "list", "tuple"]),
 })
 PLAIN_HINTS = {"dtype": "<f4", "order": "C", "ints": "py", "scalar": "py"}
 
@@ -828,7 +829,8 @@ def _b_optical(s, h):
     from basictdf.tdfOpticalSystem import OpticalChannelData, OpticalSetupBlock, OpticalSetupBlockFormat
 
     chans = [OpticalChannelData(ival(c["index"], h), _txt(c["lens"], h), _txt(c["type"], h), _txt(c["name"], h), _viewport(c["vp"], h)) for c in s["channels"]]
-    return OpticalSetupBlock(OpticalSetupBlockFormat(s["format"]), list(chans))
+    # (the constructor keeps the sequence it is given: a tuple of channels is as good a sequence as a list for everything the block does)
+    return OpticalSetupBlock(OpticalSetupBlockFormat(s["format"]), tuple(chans) if h.get("seq") == "tuple" else list(chans))
 
 
 def _b_events(s, h):
